@@ -1,4 +1,6 @@
 mod c05;
+mod universe;
+mod world;
 
 fn main() {
     let args = vpc::Args::parse();
